@@ -316,6 +316,12 @@ def run(ctx):
         cases.append(case)
         if len(res["samples"]) < 3 and i >= len(corpus):
             res["samples"].append(dict(case=dict(case, ts=case["ts"][:5], vals=case["vals"][:5]), impl=line[:200]))
+    for case in subsecond_cases():
+        res["evaluations"] += 1
+        fs = run_subsecond(case)
+        res["hist"]["subsecond:" + case["unit"]] = res["hist"].get("subsecond:" + case["unit"], 0) + 1
+        if fs:
+            res["oracle_failures"].append(dict(clause=fs[0][0], detail=fs[0][1], case=case))
     if ctx.get("model_ok", True):
         outs = core.run_driver(lines)
         for out, exp, case in zip(outs, expect, cases):
@@ -378,6 +384,61 @@ def dst_edge_corpus():
     return out
 
 
+def subsecond_cases():
+    """limits with a sub-second part (a logged intervention instant) on indexes of second / millisecond / microsecond resolution
+    (epoch feeds): the comparison is between INSTANTS whatever the resolutions of index and limit are"""
+    out = []
+    base = int(pd.Timestamp("2021-06-20 12:00:00", tz="UTC").timestamp())
+    for unit in ("s", "ms", "us"):
+        for frac_ms, on_stamp in ((250, True), (400, True), (250, False)):
+            for which in ("reporting", "baseline"):
+                for md in (10, None):
+                    out.append(dict(subsecond=True, unit=unit, frac_ms=frac_ms, which=which, max_days=md, base=base,
+                                    on_stamp=on_stamp, frame=(unit == "ms")))
+    return out
+
+
+def run_subsecond(case):
+    """independent oracle: the property's clauses evaluated with pandas Timestamp comparisons on the returned index"""
+    from opendsm.eemeter.common.transform import get_baseline_data, get_reporting_data
+    base, unit, md, which = case["base"], case["unit"], case["max_days"], case["which"]
+    ts = [base + 3600 * h for h in range(-24 * 15, 24 * 15 + 1)]
+    idx = pd.DatetimeIndex(pd.to_datetime(ts, unit="s", utc=True)).as_unit(unit)
+    vals = np.arange(len(ts), dtype=float) + 1.0
+    data = pd.DataFrame({"value": vals, "temperature": 60.0}, index=idx) if case["frame"] else pd.Series(vals, index=idx, name="value")
+    before = data.copy(deep=True)
+    lim = pd.Timestamp(base if case["on_stamp"] else base + 1800, unit="s", tz="UTC") + pd.Timedelta(milliseconds=case["frac_ms"])
+    fails = []
+    try:
+        if which == "reporting":
+            out, w = get_reporting_data(data, start=lim, max_days=md)
+            lo, hi = lim, (lim + pd.Timedelta(days=md) if md is not None else None)
+        else:
+            out, w = get_baseline_data(data, end=lim, max_days=md)
+            lo, hi = (lim - pd.Timedelta(days=md) if md is not None else None), lim
+    except Exception as e:  # noqa
+        return [("subsecond_limit_rejected", dict(error=f"{type(e).__name__}: {e}"[:120]))]
+    oi = out.index
+    if lo is not None and len(oi) and oi.min() < lo:
+        fails.append(("rows_before_requested_start" if which == "reporting" else "rows_earlier_than_max_days",
+                      dict(limit=str(lo), first_row=str(oi.min()))))
+    if hi is not None and len(oi) and oi.max() > hi:
+        fails.append(("rows_after_requested_end" if which == "baseline" else "rows_later_than_max_days",
+                      dict(limit=str(hi), last_row=str(oi.max()))))
+    want = data.index[(data.index >= lo if lo is not None else True) & (data.index <= hi if hi is not None else True)]
+    if not oi.equals(want):
+        fails.append(("selection_is_not_the_rows_within_the_limits", dict(rows=len(oi), expected=len(want))))
+    if not before.equals(data):
+        fails.append(("input_modified", {}))
+    # a requested end 0.4 s past the last datum is a gap
+    if which == "baseline" and md is None:
+        last = data.index.max()
+        out2, w2 = get_baseline_data(data, end=last + pd.Timedelta(milliseconds=case["frac_ms"]), max_days=None)
+        if not any(x.qualified_name.endswith("gap_at_baseline_end") for x in w2):
+            fails.append(("gap_not_reported", dict(requested_end=str(last + pd.Timedelta(milliseconds=case["frac_ms"])), data_end=str(last))))
+    return fails
+
+
 def replay_finding(entry):
     case = entry["witness"]["case"]
     _, fails, _ = run_case(case)
@@ -388,6 +449,8 @@ def replay(obj):
     case = obj.get("case")
     if not case:
         return []
+    if case.get("subsecond"):
+        return run_subsecond(case)
     _, fails, _ = run_case(case)
     return fails
 
